@@ -454,9 +454,65 @@ fn run(case: &[u64]) -> Result<Vec<u64>, BadCase> {
             enc_res(&mut out, &res, |n| *n as u64);
             enc_vec(&mut out, cap, &v);
         }
+        20 => {
+            // read_vectored_exact over the scripted reader, which has only the DEFAULT
+            // read_vectored (loop_read_vectored! over VectoredBufIter)
+            let (ms, caps) = members(&mut c)?;
+            let ns = c.take()? as usize;
+            let sched = c.sched(ns)?;
+            let mut r = ScriptReader::new(sched, c.rest());
+            let total: usize = caps.iter().sum();
+            let BufResult(res, ms) = block_on(r.read_vectored_exact(ms));
+            enc_res(&mut out, &res, |_| total as u64);
+            for (m, &cp) in ms.iter().zip(&caps) {
+                enc_vec(&mut out, cp, m);
+            }
+            out.push(r.remaining());
+        }
+        21 => {
+            let pos = c.take()?;
+            if pos > 4096 {
+                return Err(BadCase);
+            }
+            let (ms, caps) = members(&mut c)?;
+            let this = bytes_of(c.rest());
+            let total: usize = caps.iter().sum();
+            let BufResult(res, ms) = block_on(this.as_slice().read_vectored_exact_at(ms, pos));
+            enc_res(&mut out, &res, |_| total as u64);
+            for (m, &cp) in ms.iter().zip(&caps) {
+                enc_vec(&mut out, cp, m);
+            }
+        }
+        22 => {
+            let (ms, caps) = members(&mut c)?;
+            let sched = c.sched(1)?;
+            let mut r = ScriptReader::new(sched, c.rest());
+            let BufResult(res, ms) = block_on(r.read_vectored(ms));
+            enc_res(&mut out, &res, |n| *n as u64);
+            for (m, &cp) in ms.iter().zip(&caps) {
+                enc_vec(&mut out, cp, m);
+            }
+            out.push(r.remaining());
+        }
         _ => return Err(BadCase),
     }
     Ok(out)
+}
+
+/// `nm (len cap)*`: Vec<u8> members with pre-existing content and spare capacity
+fn members(c: &mut Case) -> Result<(Vec<Vec<u8>>, Vec<usize>), BadCase> {
+    let nm = c.take()?;
+    if nm > 8 {
+        return Err(BadCase);
+    }
+    let mut ms = Vec::new();
+    let mut caps = Vec::new();
+    for _ in 0..nm {
+        let (len, cap) = c.len_cap()?;
+        ms.push(canary_vec(len, cap));
+        caps.push(cap);
+    }
+    Ok((ms, caps))
 }
 
 fn main() {
